@@ -252,6 +252,121 @@ def fixed_tp(tier):
     return out
 
 
+
+# ------------------------------------------------------------------------------------------ sess
+def sess_case(role, retry, odcid, peer, blk):
+    return [role, 1 if retry is not None else 0, len(retry or []), *(retry or []), len(odcid), *odcid, len(peer), *peer, *blk]
+
+
+def sess_parse(c):
+    """inverse of sess_case (None when the framing integers are out of range)"""
+    try:
+        role, rf, rl = c[0], c[1], c[2]
+        i = 3
+        retry = c[i:i + rl]; i += rl
+        ol = c[i]; odcid = c[i + 1:i + 1 + ol]; i += 1 + ol
+        pl = c[i]; peer = c[i + 1:i + 1 + pl]; i += 1 + pl
+        if len(retry) != rl or len(odcid) != ol or len(peer) != pl:
+            return None
+        return role, (retry if rf else None), rf, rl, odcid, peer, c[i:]
+    except IndexError:
+        return None
+
+
+def sess_valid(c):
+    r = sess_parse(c)
+    if r is None:
+        return False
+    role, retry, rf, rl, odcid, peer, blk = r
+    return (role in (0, 1) and rf in (0, 1) and 0 <= rl <= 20 and 8 <= len(odcid) <= 20 and len(peer) <= 20
+            and all(0 <= v <= 255 for v in c[3:]))
+
+
+def sess_variants(rng, role, retry, odcid, peer):
+    """blocks around the authentic one: each of the three connection id parameters present-and-equal,
+    absent, or different (one byte flipped / truncated / extended / another's value)"""
+    def alter(v, how):
+        v = list(v)
+        if how == 0:
+            return v
+        if how == 1:
+            return None
+        if how == 2:
+            return (v[:-1] + [v[-1] ^ 1]) if v else [0]
+        if how == 3:
+            return v[:-1] if v else [7]
+        if how == 4:
+            return v + [0]
+        return list(odcid if v != list(odcid) else peer)
+    out = []
+    for hi in range(6):
+        for ho in (range(6) if role == 1 else (1, 0)):
+            for hr in ((0, 1, 2, 3, 4, 5) if role == 1 else (1, 0)):
+                i = alter(peer, hi)
+                o = alter(odcid, ho)
+                r = alter(retry if retry is not None else [9, 9, 9, 9], hr if retry is not None else (1 if hr in (1,) else hr))
+                if retry is None and hr == 1:
+                    r = None
+                ents = []
+                if i is not None:
+                    ents.append((0x0F, i))
+                if o is not None:
+                    ents.append((0x00, o))
+                if r is not None:
+                    ents.append((0x10, r))
+                out.append(ents)
+    return out
+
+
+def fixed_sess(tier):
+    import random
+    rng = random.Random(1407)
+    out = []
+    odcid = [1, 2, 3, 4, 5, 6, 7, 8]
+    for role in (0, 1):
+        for retry in (None, [9, 9, 9, 9], [9] * 8, [9] * 20, [5, 6, 7]):
+            for peer in ([], [0xAA, 0xBB, 0xCC, 0xDD], [3] * 20):
+                for ents in sess_variants(rng, role, retry, odcid, peer):
+                    if len(ents) > 3:
+                        continue
+                    blk = []
+                    for pid, v in ents:
+                        if len(v) <= 40:
+                            blk += entry(pid, v)
+                    out.append(sess_case(role, retry, odcid, peer, blk))
+    # authentic ids with another parameter at / beyond a bound, an unknown parameter, a duplicate
+    for role in (0, 1):
+        base = entry(0x0F, [0xAA, 0xBB]) + (entry(0x00, odcid) if role else [])
+        for extra in (entry(0x0B, vi(16383)), entry(0x0B, vi(16384)), entry(0x1B, [1, 2]), entry(0x0F, [0xAA, 0xBB]),
+                      entry(0x0E, vi(1)), entry(0x03, vi(65528)), [0x40]):
+            out.append(sess_case(role, None, odcid, [0xAA, 0xBB], base + extra))
+            out.append(sess_case(role, None, odcid, [0xAA, 0xBB], extra + base))
+    return out
+
+
+def gen_sess(rng):
+    role = rng.choice([0, 1, 1])
+    odcid = rbytes(rng, rng.choice([8, 8, 9, 16, 20]))
+    peer = rbytes(rng, rng.choice([0, 4, 8, 8, 20, 1]))
+    retry = rbytes(rng, rng.choice([4, 4, 8, 20, 5, 0, 3])) if (role == 1 and rng.random() < 0.5) or rng.random() < 0.1 else None
+    ents = rng.choice(sess_variants(rng, role, retry, odcid, peer)) if rng.random() < 0.8 else \
+        [(0x0F, peer)] + ([(0x00, odcid)] if role else []) + ([(0x10, retry)] if retry is not None and role else [])
+    ents = [(p, v) for p, v in ents]
+    # other parameters around
+    for _ in range(rng.choice([0, 0, 1, 2, 3])):
+        pid = rng.choice([0x01, 0x03, 0x04, 0x08, 0x0A, 0x0B, 0x0C, 0x0E, 0x20, 0x02, 0x0D, 0xDC0000] + UNKNOWN_IDS[:6])
+        if role == 0 and pid in (0x02, 0x0D) and rng.random() < 0.8:
+            continue
+        ents.insert(rng.randrange(len(ents) + 1), (pid, some_value(rng, pid)))
+    if rng.random() < 0.05 and ents:
+        ents.append(rng.choice(ents))
+    blk = []
+    for pid, v in ents:
+        blk += entry(pid, v[:60])
+    if rng.random() < 0.03 and blk:
+        blk = blk[:rng.randrange(len(blk))]
+    return sess_case(role, retry, odcid, peer, blk)
+
 CLASSES = {1: "ade_nonminimal", 2: "rscid_short"}
 
 
@@ -268,16 +383,32 @@ def classify(p):
         from run_check import hexline, parse_hexline, BUILD, TARGET
         case = p.get("minimal_case", p["case"])
         impl = p.get("minimal_impl", p["impl"])
-        if not impl.split() or impl.split()[0] != "0":
-            return None
+        comp = p.get("component", "tp")
         model = os.path.join(BUILD, "ocaml", "C14", "model_C14")
-        binp = os.path.join(TARGET, "release", "C14")
-        r = parse_hexline(_run([model, "run", "tp_class"], hexline(case)))
-        if not r or r[0] == 0:
+        if comp == "tp":
+            if not impl.split() or impl.split()[0] != "0":
+                return None
+            binp = os.path.join(TARGET, "release", "C14")
+            r = parse_hexline(_run([model, "run", "tp_class"], hexline(case)))
+            if not r or r[0] == 0:
+                return None
+            stripped = hexline(r[1:])
+        elif comp == "sess":
+            if not impl.split() or impl.split()[0] != "1":
+                return None
+            binp = os.path.join(TARGET, "release", "C14s")
+            q = sess_parse(case)
+            if q is None:
+                return None
+            role, retry, rf, rl, odcid, peer, blk = q
+            r = parse_hexline(_run([model, "run", "tp_class"], hexline([role] + blk)))
+            if not r or r[0] == 0:
+                return None
+            stripped = hexline(sess_case(role, retry, odcid, peer, r[2:]))
+        else:
             return None
-        stripped = hexline(r[1:])
-        o = _run([binp, "tp"], stripped)
-        v = _run([model, "judge", "tp"], "%s | %s" % (stripped, o))
+        o = _run([binp, comp], stripped)
+        v = _run([model, "judge", comp], "%s | %s" % (stripped, o))
         return CLASSES.get(r[0]) if v == "1" else None
     except Exception:
         return None
@@ -313,6 +444,12 @@ registry.register("C14", {
          "valid": lambda c: len(c) >= 1 and c[0] in (0, 1) and all(0 <= v <= 255 for v in c[1:]),
          "nontrivial": lambda case, out: len(case) >= 3,
          "histogram": hist_tp},
+        {"name": "sess", "harness": ("h_transport", "C14s"), "gen": gen_sess, "fixed": fixed_sess, "quick": 20000, "thorough": 500000,
+         "valid": sess_valid,
+         "nontrivial": lambda case, out: len(case) >= 14,
+         "histogram": lambda cases, outs: {"continues": sum(1 for o in outs if o.split()[:1] == ["0"]),
+                                           "transport_parameter_error": sum(1 for o in outs if o.split() == ["1", "8"]),
+                                           "other": sum(1 for o in outs if o.split()[:1] != ["0"] and o.split() != ["1", "8"])}},
     ],
     "rule": "case = role :: block bytes. corpus + fixed families (every integer parameter at, just inside and just outside each bound in every "
             "variable-length encoding; connection id / token / flag / preferred_address / dc-version lengths around their bounds; all ordered "
@@ -322,8 +459,8 @@ registry.register("C14", {
             "raw random bytes; a case is non-trivial when the block has at least two bytes",
     "assumptions": [
         "64-bit usize (DecoderError::LengthCapacityExceeded is unreachable)",
-        "the session-level connection id authentication (on_server_params / on_client_params) is modelled and proved on the model only: "
-        "SessionContext cannot be constructed without a whole connection, so it has no correspondence run",
+        "component sess drives the real SessionContext::on_one_rtt_keys through hook verif_hooks/session.rs with dc disabled (the library default) "
+        "and the handshake's connection ids placed directly in the path / SessionContext fields (how the packet layer fills them is C13/C06 territory)",
     ],
     "trusted_base": ["no axioms: Print Assumptions reports 'Closed under the global context' for every C14 theorem",
                      "model/Rfc18_2.v is the reading of RFC 9000 7.4/16/18/18.2 the judgement uses (three-valued: must accept / must reject / unspecified)"],
